@@ -16,12 +16,13 @@
      wext w w'        = spent and signature tables of w' extend those of w (nothing removed or altered)
      same_but_calls   = nothing changed but the call counter
      settled w h      = the backend reports the own invoice with payment hash h as settled
+     ordered b a s p  = on every path of program p (for every response, so for every fault and cut) an event `a` is preceded by an event `b`
 
    The last four are refutations: computed cuts of the model at which value is inflated / stranded / the mint cannot start;
    the c07-cuts stream replays them (and every other cut) on the real mint; they are listed in known_findings.json.
 *)
 From Coq Require Import ZArith List Bool.
-From Verif Require Import Model Sem InvDb InvSwap InvMint InvMelt Corollaries Queries Footprint HRel Global GlobalQuote GlobalValue GlobalErr GlobalQuery GlobalMelt GlobalKeys Cuts.
+From Verif Require Import Model Sem InvDb InvSwap InvMint InvMelt Corollaries Queries Footprint HRel Global GlobalQuote GlobalValue GlobalErr GlobalQuery GlobalMelt GlobalKeys Cuts CutOrder.
 Import ListNotations.
 Open Scope Z_scope.
 
@@ -102,6 +103,29 @@ Theorem C07_request_run_never_panics : forall (cfg : config) (mem_ks : list ksro
        (forall (n : nat) (f : oracle) (w : world), snd (run_n n (op_prog cfg mem_ks active o) f w) <> Panicked).
 Proof. exact @request_run_never_panics. Qed.
 Print Assumptions C07_request_run_never_panics.
+
+Theorem C07_swap_cut_signatures_imply_spent : forall (mem_ks : list ksrow) (active : Z) (ins : list proof) (outs : list bmsg) 
+         (sg : bool) (n : nat) (f : oracle) (w : world),
+       let w' := fst (run_n n (swap mem_ks active ins outs sg) f w) in
+       d_sigs (w_db w') <> d_sigs (w_db w) -> incl (map (to_row 0) ins) (d_spent (w_db w')).
+Proof. exact @swap_cut_signatures_imply_spent. Qed.
+Print Assumptions C07_swap_cut_signatures_imply_spent.
+
+Theorem C07_swap_ordered : forall (mem_ks : list ksrow) (active : Z) (ins : list proof) (outs : list bmsg) (sg : bool),
+       ordered (ev_save_proofs (map (to_row 0) ins)) ev_save_sigs false (swap mem_ks active ins outs sg).
+Proof. exact @swap_ordered. Qed.
+Print Assumptions C07_swap_ordered.
+
+Theorem C07_mint_ordered : forall (mem_ks : list ksrow) (active id : Z) (outs : list bmsg) (sig : Z),
+       ordered (ev_mark_issued id) ev_save_sigs false (mint_tokens mem_ks active id outs sig).
+Proof. exact @mint_ordered. Qed.
+Print Assumptions C07_mint_ordered.
+
+Theorem C07_melt_ordered : forall (cfg : config) (mem_ks : list ksrow) (id : Z) (ins : list proof),
+       ordered (ev_add_pending (map (to_row id) ins)) ev_pay false (melt_tokens cfg mem_ks id ins) /\
+       ordered (ev_mark_pending id) ev_pay false (melt_tokens cfg mem_ks id ins).
+Proof. exact @melt_ordered. Qed.
+Print Assumptions C07_melt_ordered.
 
 Theorem C07_crash_in_settle_inflates : let w := hrun cfg0 world0 cut_melt_history in
        issuedZ w = 128 /\
